@@ -440,11 +440,37 @@ def library_cases(tier):
     return out
 
 
+DYN_VALUES = ['1', '"s"', '1.5', 'true', '(1, 2)', '(1, "a")', '("a", 1)', '(1, 2, 3)', '[1, 2]', '["a"]', '[(1, "a")]', '[(1, 2)]', '[[1], [2]]', 'some(1)', 'some("a")',
+              'none()', '[]', 'S0(1)', 'S1(1)', 'S1("a")', 'S2(1, "a")', 'S2("a", 1)', 'U0::i(1)', 'U0::s("a")', 'U1::v(1)', 'U1::v("a")', 'mapping<int>().set(1, "a")',
+              'set<int>().add(1)', '[1, 2].to_generator()', '["a"].to_generator()', 'stack().push(1)', '(x: int)->{ x }', '(x: str)->{ 1 }', '[1.5, 2.5]', '[some(1)]',
+              'fraction(1, 2)', 'date(5)', 'json(1)']
+
+
+def dynamic_cases(tier):
+    """every dynamic (factory) function of the library on every value / pair of values of differently shaped types: whatever the
+    factory accepts must run"""
+    sigs = stdlib.signatures()
+    names = sorted(set(s['name'] for s in sigs if s['kind'] == 'dynamic') - {'display', 'partial', 'cast', 'mapping', 'set'})
+    vals = DYN_VALUES if tier != 'quick' else DYN_VALUES[:24]
+    out = []
+    for nm in names:
+        for a in vals:
+            out.append('%s(%s)' % (nm, a))
+        for a, b in itertools.product(vals, repeat=2):
+            out.append('%s(%s, %s)' % (nm, a, b))
+    if tier != 'quick':
+        for nm in ('max', 'min', 'sort', 'n_largest', 'nth_largest', 'contains', 'count', 'to_cmp'):
+            small = vals[:12]
+            for a, b, c in itertools.product(small, repeat=3):
+                out.append('%s(%s, %s, %s)' % (nm, a, b, c))
+    return out
+
+
 def _library_chunk(args):
     srcs, limits = args
     n = len(srcs)
     units = [('c%d' % i, 'let c%d = ()->{ %s };' % (i, s)) for i, s in enumerate(srcs)]
-    outs = run_units(units, prelude=['fn ids(s: Sequence<int>)->Sequence<int>{ s }\n'], limits=limits, perms={'regex': True}, dump={'max_items': 6}, timeout=20.0, reset_calls=True)
+    outs = run_units(units, prelude=[T.DECLS + 'fn ids(s: Sequence<int>)->Sequence<int>{ s }\n'], limits=limits, perms={'regex': True}, dump={'max_items': 6}, timeout=20.0, reset_calls=True)
     res = []
     for o in outs:
         v = o.v
@@ -568,6 +594,9 @@ def run(tier):
     # C
     lib = library_cases(tier)
     rep.bounds['library_calls'] = len(lib)
+    dyn = dynamic_cases(tier)
+    rep.bounds['dynamic_function_calls'] = len(dyn)
+    lib = lib + dyn
     configs = [('roomy', {'search': 5000, 'size': 1 << 28, 'depth': 2000, 'calls': 300000}), ('tight', {'size': 200000, 'depth': 40, 'calls': 2000, 'search': 300, 'recursion': 200})]
     for cname, limits in configs:
         res = []
@@ -579,7 +608,7 @@ def run(tier):
             rep.nontrivial.add('lib|' + src)
             if r.startswith(('panic', 'fatal', 'host')):
                 rep.fail(Failure(PROP, 'C01|library|%s|%s|%s' % (cname, src[:120], r), {'src': src, 'limits': limits}, 'a value, an error or a violation', r,
-                                 mk_unit_job(['fn ids(s: Sequence<int>)->Sequence<int>{ s }\n'], [('c0', 'let c0 = ()->{ %s };' % src)], limits, {'regex': True}, {'max_items': 6})))
+                                 mk_unit_job([T.DECLS + 'fn ids(s: Sequence<int>)->Sequence<int>{ s }\n'], [('c0', 'let c0 = ()->{ %s };' % src)], limits, {'regex': True}, {'max_items': 6})))
     # D
     from . import c12
     scripts, book = c12.corpus(tier)
